@@ -117,7 +117,7 @@ fn make(kind: &str, eng: &Eng, krng: &SeedRng) -> (Wrapped, Orig) {
         T::Id: AsRef<BaseId>,
     {
         let id = base(k.id().unwrap_or_else(|e| vrt::die(&format!("id: {e}"))));
-        let wk = eng.wrap(k).unwrap_or_else(|e| vrt::die(&format!("wrap: {e}")));
+        let wk = eng.wrap(k).unwrap_or_else(|e| panic!("HONEST-FAIL wrap: {e}"));
         Wrapped { wk, id }
     }
     match kind {
@@ -247,7 +247,10 @@ pub fn run(args: &Args) {
         let cell = ops::parse(b);
         match vrt::catch_any(|| one(args.seed, i, &cell, inst)) {
             Ok(v) => out.emit(v),
-            Err(p) => out.fail(i, -1, "C36:panic", &format!("wrap/unwrap panicked: {p}"), json!({"ops": b.get("ops")})),
+            Err(p) => {
+                let key = if p.starts_with("HONEST-FAIL") { "C36:honest-operation-failed" } else { "C36:panic" };
+                out.fail(i, -1, key, &format!("wrap/unwrap panicked: {p}"), json!({"ops": b.get("ops")}))
+            }
         }
     }
     out.finish();
